@@ -1391,7 +1391,9 @@ static int cfg_parse_internal(cfg_t *cfg, int level, int force_state, cfg_opt_t 
 		}
 
 		if (tok == EOF) {
-			if (state != 0) {
+			/* also between two items of a section body: its closing
+			 * brace is missing (a default value string ends like this) */
+			if (state != 0 || (level > 0 && !force_opt)) {
 				cfg_error(cfg, _("premature end of file"));
 				goto error;
 			}
